@@ -578,6 +578,8 @@ def m_as_slice(eng, st, fr, t, name, rname, args):
     if it is None:
         return NotImplemented
     data = _iter_data(st, it)
+    if not isinstance(it.fields.get(0), K):
+        return NotImplemented
     return _mkslice(data[it.fields[0].v:], it.fields[0].v if it.fields.get(1) is None else None)
 
 
